@@ -256,6 +256,9 @@ def main(argv=None) -> int:
         # the numpy pipelines of the polygon constructors, translated from the source text of the working tree
         from harness import pipelines
         pipelines.regenerate()
+        # further per-topic source translators (harness/trans_*.py -> Gen/<Topic>.lean)
+        from harness import translators
+        translators.regenerate()
     except Exception:
         traceback.print_exc()
         return 2
@@ -266,18 +269,29 @@ def main(argv=None) -> int:
     theorems = []
     axioms = {}
     build_log = ''
-    checker_cmd = f'cd lean && lake build {module} && lake env lean <#print axioms of every theorem in {module}>'
+    checker_cmd = (f'cd lean && lake build {module} ' + ' '.join(getattr(mod, 'EXTRA_MODULES', [])) +
+                   f' && lake env lean <#print axioms of every theorem in these modules>')
     try:
-        targets = [module] + (lean.driver_imports(mod.DRIVER) if getattr(mod, 'DRIVER', None) else [])
+        # EXTRA_MODULES: further theorem files of the property (e.g. Props/CnnGen.lean, the theorems about the terms
+        # a source translator generates); every theorem in them is an obligation like those of MODULE
+        extra = list(getattr(mod, 'EXTRA_MODULES', []))
+        targets = [module] + extra + (lean.driver_imports(mod.DRIVER) if getattr(mod, 'DRIVER', None) else [])
         ok, build_log = lean.build(targets, clean=(args.tier == 'thorough'))
         if not ok:
-            proof_problems.append(f'lake build {module} failed')
+            proof_problems.append(f'lake build {" ".join([module] + extra)} failed')
         else:
             theorems = lean.theorems_in(module)
+            per_module = {module: list(theorems)}
+            for em in extra:
+                per_module[em] = lean.theorems_in(em)
+                theorems += per_module[em]
             missing = [t for t in getattr(mod, 'REQUIRED', []) if t not in theorems]
             for t in missing:
-                proof_problems.append(f'required theorem {t} is not stated in {module}')
-            axioms, _raw = lean.audit(module, theorems)
+                proof_problems.append(f'required theorem {t} is not stated in {" / ".join([module] + extra)}')
+            axioms = {}
+            for m_, ths in per_module.items():
+                ax_, _raw = lean.audit(m_, ths)
+                axioms.update(ax_)
             for t, ax in axioms.items():
                 if ax is None:
                     proof_problems.append(f'theorem {t} did not check')
@@ -286,6 +300,10 @@ def main(argv=None) -> int:
                     if bad:
                         proof_problems.append(f'theorem {t} depends on axioms {bad}')
             files = lean.module_closure(module)
+            for em in extra:
+                for f in lean.module_closure(em):
+                    if f not in files:
+                        files.append(f)
             for hit in lean.grep_forbidden(files):
                 proof_problems.append(f'forbidden token: {hit}')
             if args.tier == 'thorough':
